@@ -22,6 +22,7 @@ ASSUMPTIONS = ["unit constants of phonopy.units agree with CODATA-2018 to 2e-6 (
 BUDGET = {"quick": 600, "thorough": 3000}
 
 FSETS = ["spread", "typical", "typical-imag", "zero-and-tiny", "single-high"]
+FSETS_T = FSETS + ["typical-b", "typical-c", "clustered"]
 WEIGHTS = ["ones", "mixed", "huge"]
 CUTOFF = [None, 0.0, "between", "above-all", 1e-3]
 IMAG = ["as-is", "pretend_real"]
@@ -59,8 +60,11 @@ def fset(name, seed):
     if name == "spread":
         f = np.logspace(-6, 3, nq * nb).reshape(nq, nb)
         g.shuffle(f, axis=1)
-    elif name == "typical":
+    elif name in ("typical", "typical-b", "typical-c"):
+        g = np.random.default_rng(7 + seed + {"typical": 0, "typical-b": 101, "typical-c": 202}[name])
         f = np.sort(g.uniform(0.4, 22.0, (nq, nb)), axis=1)
+    elif name == "clustered":
+        f = np.sort(5.0 + 1e-6 * g.uniform(0, 1, (nq, nb)), axis=1)
     elif name == "typical-imag":
         f = np.sort(g.uniform(0.4, 22.0, (nq, nb)), axis=1)
         f[0, 0] = -1.3
@@ -84,20 +88,20 @@ def weights(name, nq):
     return np.array([2 ** 31, 1, 3, 2 ** 20][:nq], dtype="int64")
 
 
-def tgrid():
-    return np.concatenate([[0.0], np.logspace(-3, 7, 41)])
+def tgrid(tier="quick"):
+    return np.concatenate([[0.0], np.logspace(-3, 7, 41 if tier == "quick" else 161)])
 
 
 def plan(tier, seed):
     cases = []
-    full = itertools.product(FSETS, WEIGHTS, CUTOFF, IMAG, BANDS, PROJ, STAT, LANG)
+    full = itertools.product(FSETS if tier == "quick" else FSETS_T, WEIGHTS, CUTOFF, IMAG, BANDS, PROJ, STAT, LANG)
     default = ("typical", "ones", None, "as-is", None, False, "quantum")
     for t in full:
         if tier == "quick":
             dev = sum(1 for a, b in zip(t[:7], default) if a != b)
             if dev > 4:
                 continue
-        cases.append(dict(zip(("fset", "weights", "cutoff", "imag", "bands", "proj", "stat", "lang"), t)))
+        cases.append(dict(zip(("fset", "weights", "cutoff", "imag", "bands", "proj", "stat", "lang"), t), tier=tier))
     groups = [cases[k:k + 40] for k in range(0, len(cases), 40)]
     groups.append([{"kind": "end2end", "xtal": x, "lang": "C"} for x in ("NaCl-prim-2", "hcp-2", "tri-P1-3", "wurtzite-4")])
     groups.append([{"kind": "units"}])
@@ -162,7 +166,7 @@ def run_case(case, seed):
     tag = "%s/%s" % (case["lang"], case["stat"])
     f_in = f.copy()
     mesh = FakeMesh(f_in, w.copy(), ev.copy() if (case["proj"] or True) else None)
-    temps = tgrid()
+    temps = tgrid(case.get("tier", "quick"))
     try:
         tp = ThermalProperties(mesh, cutoff_frequency=cut, pretend_real=pretend, band_indices=bi, is_projection=case["proj"], classical=classical)
         tp.temperatures = temps
@@ -237,7 +241,7 @@ def run_case(case, seed):
             if np.abs(pr.sum(axis=1) - tot).max() > 1e-8 * max(np.abs(tot).max(), 1e-12):
                 return fail("projection-sum/" + nm, "sum of projected %s differs from the total by %.3g" % (nm, np.abs(pr.sum(axis=1) - tot).max()))
     # thermodynamic identities on phonopy's own output (refined grid, quantum + classical)
-    if case["fset"].startswith("typical") and cut != "above-all" and nmodes:
+    if case["fset"] in ("typical", "typical-imag", "typical-b", "typical-c") and cut != "above-all" and nmodes:
         for T0 in (30.0, 300.0, 3000.0):
             h = T0 * 2e-4
             tp2 = ThermalProperties(FakeMesh(f.copy(), w.copy(), ev.copy()), cutoff_frequency=cut, pretend_real=pretend, band_indices=bi, classical=classical)
